@@ -337,7 +337,21 @@ func C17(r *h.Run) {
 		}
 		files = append(files, f)
 	}
-	files = append(files, gFile{Package: "acme.v1", GoPackage: "example.com/gen/p;p"}) // no services
+	// go_package values whose last element (or explicit name) is the name of a package the
+	// generated code itself imports: protogen must rename one of the two imports
+	for _, gp := range []string{"example.com/gen/acme/http", "example.com/gen/context", "example.com/gen/errors", "example.com/gen/strings", "example.com/gen/x;connect_go", "example.com/gen/y;http"} {
+		files = append(files, gFile{Package: "acme.v1", GoPackage: gp, Services: []gService{{Name: "Gateway", Methods: []gMethod{
+			{Name: "Do"}, {Name: "Up", CS: true}, {Name: "Down", SS: true}, {Name: "Both", CS: true, SS: true}}}}})
+	}
+	collides := func(gp string) bool {
+		for _, suf := range []string{"/http", "/context", "/errors", "/strings", ";connect_go", ";http"} {
+			if strings.HasSuffix(gp, suf) {
+				return true
+			}
+		}
+		return false
+	}
+	files = append(files, gFile{Package: "nosvc.v1", GoPackage: "example.com/gen/nosvc;nosvc"}) // no services
 
 	compiled := 0
 	single := map[int]string{} // file index -> generated content when generated alone
@@ -411,7 +425,7 @@ func C17(r *h.Run) {
 				map[string]any{"file": f, "service": s.Name, "impl_skeleton": rows, "impl_mount": mount})
 		}
 		// compile a subset together with protoc-gen-go's output
-		if genGo != "" && (fi < 6 || fi%r.N(9, 3) == 0) {
+		if genGo != "" && (fi < 6 || fi%r.N(9, 3) == 0 || collides(f.GoPackage)) {
 			pb, err := runPlugin(genGo, req)
 			if err != nil || pb.Error != nil || len(pb.File) != 1 {
 				r.Note("protoc-gen-go failed on case %d: %v %s", fi, err, pb.GetError())
@@ -461,13 +475,12 @@ func C17(r *h.Run) {
 	if len(withSvc) >= 2 {
 		a, b := withSvc[0], withSvc[len(withSvc)-1]
 		// two files of one request must not generate the same output file
+		// ... nor define the same message names in the same proto package
+		b = a
 		for _, cand := range withSvc[1:] {
-			if files[cand].GoPackage != files[a].GoPackage {
+			if files[cand].GoPackage != files[a].GoPackage && files[cand].Package != files[a].Package {
 				b = cand
 			}
-		}
-		if files[b].GoPackage == files[a].GoPackage {
-			b = a
 		}
 		orders := [][]int{{noSvc, a}, {a, noSvc}}
 		if b != a {
